@@ -239,6 +239,8 @@ mut("P16r", "conn.go", "			if value != \"\" {\n				c.writeResponse(501, Enhanced
 mut("P16r2", "parse.go", "			if m[1] == \"\" {\n				return nil, fmt.Errorf(\"failed to parse arg string: %q\", arg)\n			}\n", "", ["C11"], "parseArgs", note="regression of fix d9528c8: empty parameter value accepted")
 mut("P17r", "conn.go", "	c.lineLimitReader.LineLimit = 0\n	c.lineLimitReader.curLineLength = 0\n\n	chunk := io.LimitReader", "	c.lineLimitReader.LineLimit = 0\n\n	chunk := io.LimitReader", ["C05", "C19"], "no-line-limit-on-chunk-octets", note="regression of fix 4981975: what was counted of the chunk is not forgotten")
 mut("P18r", "lengthlimit_reader.go", "			r.rest = append(append([]byte{}, b[lineStart:n]...), r.rest...)\n			return lineStart, nil", "			_ = lineStart\n			return 0, ErrTooLongLine", ["C05", "C19"], "", note="regression of fix 4981975: the Read that notices the excess fails and drops what it read")
+mut("P19r", "conn.go", "	line, err := c.text.R.ReadString('\\n')\n	if err != nil {\n		return \"\", err\n	}\n", "	line, err := c.text.R.ReadString('\\n')\n	if err != nil && line == \"\" {\n		return \"\", err\n	}\n	if !strings.HasSuffix(line, \"\\n\") {\n		line += \"\\n\"\n	}\n", ["C19"], "bounded:line-limit-end-to-end", note="regression of the partial-line fix: the head of an over-long line runs as a command")
+mut("P20r", "conn.go", "	if c.server.MaxLineLength > 0 && len(line) > c.server.MaxLineLength {\n		// Read ahead while the limit was lifted for a BDAT chunk.\n		return \"\", ErrTooLongLine\n	}\n", "", ["C19"], "a-line-handed-to-the-command-loop-is-within-the-limit", note="regression: lines read ahead behind a chunk escape the limit")
 # ---------------------------------------------------------------- client.go
 mut("M104", "client.go", "		if resp == nil {\n			break\n		}\n		resp64 = make([]byte, encoding.EncodedLen(len(resp)))", "		if len(resp) == 0 {\n			break\n		}\n		resp64 = make([]byte, encoding.EncodedLen(len(resp)))", ["C09"], "success-means-the-server-said-235", note="client stops the AUTH exchange on an empty (non-nil) response and reports success")
 mut("M30", "client.go", "	if d.closed {\n		return fmt.Errorf(\"smtp: data writer closed twice\")\n	}\n	d.closed = true\n", "	if d.closed {\n		return fmt.Errorf(\"smtp: data writer closed twice\")\n	}\n", ["C16"], "always-closed-afterwards", note="dataCloser never marked closed (also regression of fix 755bba6)")
@@ -316,6 +318,8 @@ def main():
         import glob
         for mp in sorted(glob.glob(os.path.join(os.path.dirname(ST), "seeded", "*", "meta.json"))):
             meta = json.load(open(mp))
+            if meta.get("invalidated"):
+                continue
             corpus.append(dict(id=meta["id"], patch="../seeded/%s/patch.diff" % meta["id"], props=[meta["breaks_property"]], expect="", kind="mutant",
                                note="seeded by an independent agent: " + meta.get("needs_to_manifest", "").split("\n")[0][:160]))
         json.dump(corpus, open(os.path.join(ST, "corpus.json"), "w"), indent=1)
